@@ -26,6 +26,24 @@ class _Stop(Exception):
     """End of a harness path (bound of the unrolling reached / nothing more to check)."""
 
 
+def vc(env, cond, label):
+    """env.check, but a VC that was already discharged (unsat) on an earlier path with
+    the *same decision prefix* (hence the same axioms and path condition: paths are
+    deterministic re-executions) is not sent to z3 again."""
+    if not env.symbolic or env.active_mutant is not None or not hasattr(cond, "e"):
+        return env.check(cond, label)
+    ctx = env.ctx
+    cache = ctx.ex.__dict__.setdefault("_vc_done", set())
+    key = (label, cond.e.hash(), len(ctx.pc), tuple(ctx.trail[: ctx.pos]))
+    if key in cache:
+        return True
+    ok = env.check(cond, label)
+    if ok:
+        cache.add(key)
+    return ok
+
+
+
 # ---------------------------------------------------------------------------
 # invariant
 # ---------------------------------------------------------------------------
@@ -92,7 +110,7 @@ def divisor_vcs(env, rf):
     ]
     ok = True
     for c, lab in conds:
-        env.check(c, DIV + lab)
+        vc(env, c, DIV + lab)
         ok = b_and(ok, c)
     return ok
 
@@ -110,7 +128,7 @@ def guarded_next(env, rf, call=None):
                 raised = False
             except ZeroDivisionError:
                 raised = True
-            env.check(raised, "divisor model agrees with the real code: ZeroDivisionError is raised")
+            vc(env, raised, "divisor model agrees with the real code: ZeroDivisionError is raised")
         raise _Stop()
     try:
         return call()
@@ -202,11 +220,11 @@ def secant_branch(rf):
 def check_convergence(env, rf, tol, a2, b2, fa2, fb2):
     conv = rf.is_converged(tol)
     g = rf.current_guess
-    env.check(
+    vc(env, 
         b_implies(conv, b_and(g == b2, abs(g - a2) < tol, abs(g - b2) < tol, fa2 * fb2 <= 0)),
         "at convergence current_guess is within tolerance of both ends of a bracket with a sign change",
     )
-    env.check(b_implies(b_not(conv), abs(a2 - b2) >= tol), "not converged means |b-a| >= tolerance")
+    vc(env, b_implies(b_not(conv), abs(a2 - b2) >= tol), "not converged means |b-a| >= tolerance")
     return conv
 
 
@@ -216,7 +234,7 @@ def check_convergence(env, rf, tol, a2, b2, fa2, fb2):
 def inductive_step(eps_kind, form):
     def fn(env):
         rf = arbitrary_finder(env, eps_kind, form)
-        env.check(binv(rf), "constructed pre-state satisfies BInv")
+        vc(env, binv(rf), "constructed pre-state satisfies BInv")
         a, b, fa, fb = rf.a, rf.b, rf.fa, rf.fb
         c0 = rf.c
         sec = secant_branch(rf)
@@ -225,56 +243,56 @@ def inductive_step(eps_kind, form):
         except _Stop:
             return
         bis = rf.bisection
-        env.check(x == rf.next_abscissa, "get_next_abscissa returns next_abscissa")
-        env.check(weakly_between(x, a, b), "next abscissa lies in the closed bracket")
-        env.check(x != a, "next abscissa is not the far end a")
+        vc(env, x == rf.next_abscissa, "get_next_abscissa returns next_abscissa")
+        vc(env, weakly_between(x, a, b), "next abscissa lies in the closed bracket")
+        vc(env, x != a, "next abscissa is not the far end a")
         inside = strictly_between(x, a, b)
-        env.check(b_or(inside, x == b), "next abscissa is strictly inside the bracket, or it is b itself")
-        env.check(
+        vc(env, b_or(inside, x == b), "next abscissa is strictly inside the bracket, or it is b itself")
+        vc(env, 
             b_implies(b_or(sec, bis), inside),
             "a secant step and a bisection step query strictly inside the bracket",
         )
         if env.mutant("strict_always"):
-            env.check(inside, "next abscissa is strictly inside the bracket, or it is b itself")
-        env.check(b_implies(bis, x == (a + b) / 2), "a bisection step queries the midpoint")
+            vc(env, inside, "next abscissa is strictly inside the bracket, or it is b itself")
+        vc(env, b_implies(bis, x == (a + b) / 2), "a bisection step queries the midpoint")
         hist = b_and(rf.c == b, rf.fc == fb, rf.d == c0)
         if env.mutant("wrong_history"):
             hist = b_and(rf.c == a, rf.fc == fa)
-        env.check(hist, "history shifted: c,fc = b,fb and d = old c")
-        env.check(
+        vc(env, hist, "history shifted: c,fc = b,fb and d = old c")
+        vc(env, 
             b_and(rf.a == a, rf.b == b, rf.fa == fa, rf.fb == fb),
             "get_next_abscissa leaves the bracket unchanged",
         )
         if x == b:
             # stall step: an accepted inverse-quadratic step with dx = 0 re-queries b; the
             # function value there is known (function-consistent ordinate)
-            env.check(b_and(b_not(sec), not bis), "x = b only on an accepted inverse-quadratic step")
-            env.check(form in ("beyond_b", "beyond_a"), "x = b only when c lies outside the bracket")
+            vc(env, b_and(b_not(sec), not bis), "x = b only on an accepted inverse-quadratic step")
+            vc(env, form == "beyond_b", "x = b only when c lies strictly beyond b")
             rf.provide_ordinate(x, fb)
-            env.check(
+            vc(env, 
                 b_and(rf.a == a, rf.b == b, rf.fa == fa, rf.fb == fb, rf.c == b, rf.fc == fb),
                 "after re-querying b the bracket is unchanged and the history has form F1 (next step is a secant step)",
             )
-            env.check(binv(rf), "BInv is inductive")
+            vc(env, binv(rf), "BInv is inductive")
             return
         y = env.real("y", nonzero=True)
         rf.provide_ordinate(x, y)
         a2, b2, fa2, fb2 = rf.a, rf.b, rf.fa, rf.fb
-        env.check(
+        vc(env, 
             b_and(weakly_between(a2, a, b), weakly_between(b2, a, b)),
             "new bracket is contained in the old one",
         )
         shrink = abs(a2 - b2) < abs(a - b)
         if env.mutant("halves"):
             shrink = abs(a2 - b2) * 2 <= abs(a - b)
-        env.check(shrink, "new bracket is strictly shorter")
-        env.check(b_and(fa2 * fb2 <= 0, fa2 * fb2 < 0), "fa'*fb' <= 0 (and < 0 for a non-zero ordinate)")
-        env.check(abs(fb2) <= abs(fa2), "|fb'| <= |fa'|")
-        env.check(
+        vc(env, shrink, "new bracket is strictly shorter")
+        vc(env, b_and(fa2 * fb2 <= 0, fa2 * fb2 < 0), "fa'*fb' <= 0 (and < 0 for a non-zero ordinate)")
+        vc(env, abs(fb2) <= abs(fa2), "|fb'| <= |fa'|")
+        vc(env, 
             b_or(b_and(a2 == x, fa2 == y), b_and(b2 == x, fb2 == y)),
             "the queried point is an end of the new bracket",
         )
-        env.check(binv(rf), "BInv is inductive")
+        vc(env, binv(rf), "BInv is inductive")
         tol = pos(env, "tol")
         check_convergence(env, rf, tol, a2, b2, fa2, fb2)
 
@@ -301,27 +319,27 @@ def bracket_inputs(env, geometry=None, ends=None, fbound=None):
     return start, end, sgn * m1, -sgn * m2
 
 
-def base_case(eps_kind):
+def base_case():
     def fn(env):
         bm = env.mod("emu_base.math.brents_root_finding")
         start, end, fs, fe = bracket_inputs(env)
-        eps = epsilon(env, eps_kind)
+        eps = epsilon(env, env.choice("epsilon", list(EPS_KINDS)))
         rf = bm.BrentsRootFinder(start=start, end=end, f_start=fs, f_end=fe, epsilon=eps)
         inv = binv(rf)
         if env.mutant("a_is_better"):
             inv = b_and(inv, abs(rf.fa) <= abs(rf.fb))
-        env.check(inv, "the constructor establishes BInv")
-        env.check(
+        vc(env, inv, "the constructor establishes BInv")
+        vc(env, 
             b_or(
                 b_and(rf.a == start, rf.b == end, rf.fa == fs, rf.fb == fe),
                 b_and(rf.a == end, rf.b == start, rf.fa == fe, rf.fb == fs),
             ),
             "the initial bracket is [start, end] with the given ordinates",
         )
-        env.check(b_and(rf.c == rf.a, rf.fc == rf.fa, rf.d == rf.a), "initial history is c = d = a")
-        env.check(rf.bisection is True and rf.next_abscissa is None, "bisection flag is set initially")
-        env.check(rf.current_guess == rf.b, "current_guess is b")
-        env.check(rf.epsilon is eps, "epsilon stored")
+        vc(env, b_and(rf.c == rf.a, rf.fc == rf.fa, rf.d == rf.a), "initial history is c = d = a")
+        vc(env, rf.bisection is True and rf.next_abscissa is None, "bisection flag is set initially")
+        vc(env, rf.current_guess == rf.b, "current_guess is b")
+        vc(env, rf.epsilon is eps, "epsilon stored")
         # same-sign (or zero) end values are rejected
         bad = env.choice("bad ends", ["same sign", "zero start", "reversed"])
         if bad == "same sign":
@@ -349,13 +367,14 @@ def base_case(eps_kind):
 # ---------------------------------------------------------------------------
 # case: T1 — ranking lemma (pure bisection regime)
 # ---------------------------------------------------------------------------
-def t1_lemma(eps_kind, form):
+def t1_lemma(eps_kind):
     """lo > 0, hi - lo < 2*eps*lo, a, b, c in [lo, hi], bisection flag set  ==>
     the step bisects, the flag stays set, the bracket halves, and a', b', c' stay
     in [lo, hi] (so the hypothesis is inductive): the finder stops after
     ceil(log2(width/tolerance)) steps for every ordinate sequence."""
 
     def fn(env):
+        form = env.choice("history form", list(FORMS))
         lo = pos(env, "lo", sample=4.0)
         span = pos(env, "span", sample=8.0)
         hi = lo + span
@@ -372,17 +391,17 @@ def t1_lemma(eps_kind, form):
             x = guarded_next(env, rf)
         except _Stop:
             return
-        env.check(rf.bisection is True, "T1: the flag stays set")
-        env.check(x == (a + b) / 2, "T1: the next abscissa is the midpoint")
+        vc(env, rf.bisection is True, "T1: the flag stays set")
+        vc(env, x == (a + b) / 2, "T1: the next abscissa is the midpoint")
         y = env.real("y", nonzero=True)
         rf.provide_ordinate(x, y)
         half = abs(rf.a - rf.b) * 2 == abs(a - b)
         if env.mutant("quarter"):
             half = abs(rf.a - rf.b) * 4 <= abs(a - b)
-        env.check(half, "T1: the bracket halves")
+        vc(env, half, "T1: the bracket halves")
         inr = b_and(*[b_and(lo <= getattr(rf, nm), getattr(rf, nm) <= hi) for nm in ("a", "b", "c")])
-        env.check(inr, "T1: a', b', c' stay in [lo, hi] (hypothesis is inductive)")
-        env.check(binv(rf), "BInv is inductive")
+        vc(env, inr, "T1: a', b', c' stay in [lo, hi] (hypothesis is inductive)")
+        vc(env, binv(rf), "BInv is inductive")
 
     return fn
 
@@ -401,14 +420,14 @@ def instrumented(env, bm, log, zeros):
 
         def get_next_abscissa(self):
             k = log["steps"]
-            env.check(binv(self, zeros=zeros), f"state reached after {k} steps satisfies BInv")
+            vc(env, binv(self, zeros=zeros), f"state reached after {k} steps satisfies BInv")
             a, b = self.a, self.b
             x = guarded_next(env, self, lambda: Real.get_next_abscissa(self))
-            env.check(weakly_between(x, a, b), f"query {k + 1} lies in the current bracket")
+            vc(env, weakly_between(x, a, b), f"query {k + 1} lies in the current bracket")
             lo, hi = log["lo"], log["hi"]
             if env.mutant("open_interval_from_start"):
                 lo = lo + (hi - lo) / 4
-            env.check(b_and(lo <= x, x <= hi), f"query {k + 1} lies in the original interval")
+            vc(env, b_and(lo <= x, x <= hi), f"query {k + 1} lies in the original interval")
             log["steps"] = k + 1
             return x
 
@@ -453,7 +472,7 @@ def unrolling(eps_kind, depth, zeros=False, geometry=None, tolerance=None, ends=
         finally:
             bm.BrentsRootFinder = Real
         rf = log["finder"]
-        env.check(b_and(start <= root, root <= end), "the returned point lies in [start, end]")
+        vc(env, b_and(start <= root, root <= end), "the returned point lies in [start, end]")
         far = rf.a if not env.mutant("far_end_is_start") else start
         at_ends = b_and(
             root == rf.b,
@@ -462,7 +481,7 @@ def unrolling(eps_kind, depth, zeros=False, geometry=None, tolerance=None, ends=
             b_or(*[b_and(rf.a == xp, rf.fa == yp) for xp, yp in table]),
             b_or(*[b_and(rf.b == xp, rf.fb == yp) for xp, yp in table]),
         )
-        env.check(
+        vc(env, 
             at_ends,
             "the returned point is an evaluated point within tolerance of another evaluated point with an ordinate of opposite (or zero) sign",
         )
@@ -471,16 +490,57 @@ def unrolling(eps_kind, depth, zeros=False, geometry=None, tolerance=None, ends=
 
 
 META = {
-    "explanation": "",
-    "outside": [],
-    "assumptions": [],
+    "explanation": (
+        "The real BrentsRootFinder (constructor, get_next_abscissa, provide_ordinate, is_converged) and find_root_brents "
+        "are executed on symbolic Python scalars; every comparison in the code forks the path explorer, abs() and "
+        "divisions become atoms with defining axioms, and each post-condition is a z3 query on the path. "
+        "(1) base_*: the real constructor, on symbolic start < end and end values of opposite sign, establishes the "
+        "representation invariant BInv (a != b, fa*fb < 0, |fb| <= |fa|, the previous iterate (c, fc) is b, a, or a point "
+        "strictly beyond b / beyond a with the matching sign and magnitude bound, d not strictly inside the bracket). "
+        "(2) step_*: ONE get_next_abscissa + provide_ordinate from an ARBITRARY state satisfying BInv (all sign / "
+        "orientation / flag configurations, symbolic epsilon > 0 and the solver's epsilon = 1) with an arbitrary non-zero "
+        "ordinate: every divisor is non-zero, the query lies in the closed bracket and is never the far end, it is strictly "
+        "inside for every secant and every bisection step, the new bracket is contained in the old one and strictly "
+        "shorter, fa'*fb' < 0, |fb'| <= |fa'|, the queried point is an end of the new bracket, BInv holds again, and at "
+        "convergence current_guess is within the tolerance of both ends of a bracket with a sign change. By induction all "
+        "queries lie in the original interval and the returned point is an evaluated point within the tolerance of an "
+        "evaluated point of opposite sign. An accepted inverse-quadratic step can have dx = 0 (a measure-zero coincidence): "
+        "the finder then re-queries b, the bracket is unchanged and the next step is a secant step strictly inside - "
+        "this case is verified separately (function-consistent ordinate). "
+        "(3) t1_*: ranking lemma T1 - if all iterates lie in [lo, hi] with lo > 0 and hi - lo < 2*eps*lo and the bisection "
+        "flag is set (it is set initially), the step is a bisection, the flag stays set, the bracket halves exactly and "
+        "the hypothesis is preserved: the finder stops after ceil(log2(width/tolerance)) steps for EVERY ordinate sequence. "
+        "(4) unroll_*: the real find_root_brents loop from the real constructor with adversarial symbolic ordinates for a "
+        "bounded number of queries (reachability witness for BInv and the post-conditions, and a check of the returned "
+        "value). (5) zero_ordinate_*: same unrolling where every ordinate may be exactly 0, with one VC per divisor of "
+        "get_next_abscissa (division by a symbol does not raise in symbolic mode, so the divisors are modelled explicitly "
+        "and the model is validated against the real ZeroDivisionError on every concrete replay)."
+    ),
+    "outside": [
+        "termination outside the T1 regime (first time step of a grid, default epsilon = 1e-6 on wide brackets): only the "
+        "bounded unrolling; this variant has no minimal step and a one-step ranking argument does not exist over the reals",
+        "unrolling depth: 1-2 queries (quick) / 2-3 queries (thorough); symbolic interval ends only in the base case, the "
+        "inductive step and one thorough unrolling; otherwise the fixed interval [0,4] (and two fixed end-value pairs for "
+        "epsilon = 1e-6, where chained inverse-quadratic steps make deeper symbolic unrollings intractable for z3)",
+        "floating-point rounding (the program is read over exact reals); non-finite values",
+        "the bound ceil(log2(width/tol)) derived from T1 is arithmetic on the halving lemma, not a query",
+    ],
+    "assumptions": [
+        "ordinates are non-zero except in the zero_ordinate_* cases",
+        "the function is single-valued: a re-queried abscissa gets the ordinate it had before",
+        "epsilon > 0, tolerance > 0, start < end",
+    ],
 }
+
+
+ZERO_ENDS = [(1.0, -2.0), (-3.0, 0.5)]
 
 
 def cases(tier):
     quick = tier == "quick"
     out = []
-    for e in EPS_KINDS:
+    eps_main = ("sym",) if quick else EPS_KINDS  # symbolic eps > 0 subsumes every constant
+    for e in eps_main:
         for form in FORMS:
             beyond = form.startswith("beyond")
             out.append(
@@ -489,35 +549,33 @@ def cases(tier):
                     fn=inductive_step(e, form),
                     covers=COVERS[1:4],
                     bounds={"epsilon": e, "history form": form, "steps": "1 (inductive)"},
-                    canaries=["halves", "wrong_history"] + (["strict_always"] if beyond and e != "1" else []),
+                    canaries=["halves", "wrong_history"] + (["strict_always"] if form == "beyond_b" else []),
                     weight=3.0 if beyond else 1.0,
                 )
             )
-    for e in EPS_KINDS:
+    out.append(
+        Case(
+            name="base_constructor",
+            fn=base_case(),
+            covers=COVERS[:1],
+            bounds={"epsilon": list(EPS_KINDS), "width": "(0, 8]"},
+            canaries=["a_is_better"],
+            weight=0.2,
+        )
+    )
+    for e in eps_main:
         out.append(
             Case(
-                name=f"base_eps{e}",
-                fn=base_case(e),
-                covers=COVERS[:1],
-                bounds={"epsilon": e, "width": "(0, 8]"},
-                canaries=["a_is_better"],
-                weight=0.2,
+                name=f"t1_eps{e}",
+                fn=t1_lemma(e),
+                covers=COVERS[1:3],
+                bounds={"epsilon": e, "history form": list(FORMS), "regime": "lo > 0, hi - lo < 2*eps*lo, flag set"},
+                canaries=["flag_not_set", "quarter"],
+                weight=2.0,
             )
         )
-    for e in EPS_KINDS:
-        for form in FORMS:
-            out.append(
-                Case(
-                    name=f"t1_eps{e}_{form}",
-                    fn=t1_lemma(e, form),
-                    covers=COVERS[1:3],
-                    bounds={"epsilon": e, "history form": form, "regime": "lo > 0, hi - lo < 2*eps*lo, flag set"},
-                    canaries=["flag_not_set", "quarter"],
-                    weight=0.5,
-                )
-            )
     # secant regime of the noisy solver: eps = 1 and |f| <= 1/2 (differences < 1 = eps)
-    for geo, depth in ([((0.0, 4.0), 2)] if quick else [((0.0, 4.0), 3), (None, 3)]):
+    for geo, depth in ([((0.0, 4.0), 2)] if quick else [((0.0, 4.0), 3), (None, 2)]):
         out.append(
             Case(
                 name=f"unroll_secant_{'fixed' if geo else 'sym'}_d{depth}",
@@ -529,17 +587,36 @@ def cases(tier):
                 weight=10.0,
             )
         )
-    for depth in ([2] if quick else [3]):
+    for depth in ([1] if quick else [2]):
         out.append(
             Case(
                 name=f"unroll_eps1e-6_d{depth}",
-                fn=unrolling("1e-6", depth, geometry=(0.0, 4.0), tolerance=1.0, ends=[(-3.0, 1.0), (0.5, -2.0)]),
+                fn=unrolling("1e-6", depth, geometry=(0.0, 4.0), tolerance=1.5, ends=[(-3.0, 1.0), (0.5, -2.0)]),
                 covers=COVERS,
-                bounds={"epsilon": 1e-6, "queries": depth, "interval": (0.0, 4.0), "tolerance": 1,
+                bounds={"epsilon": 1e-6, "queries": depth, "interval": (0.0, 4.0), "tolerance": 1.5,
                         "(f_start, f_end)": [(-3.0, 1.0), (0.5, -2.0)], "ordinates": "symbolic, non-zero"},
                 canaries=["open_interval_from_start", "far_end_is_start"],
                 weight=10.0,
                 timeout_ms=60000,
+            )
+        )
+    # exact-zero ordinates: divisors of get_next_abscissa on states reached from the real
+    # constructor through the real find_root_brents (pure-bisection geometries, so the
+    # abscissae are concrete and only the ordinates are symbolic)
+    zends = ZERO_ENDS[:1] if quick else ZERO_ENDS
+    for tag, e, geo, tol in (("eps1", "1", (2.0, 3.0), 0.125), ("eps1e-6", "1e-6", (1000000.0, 1000001.0), 0.125)):
+        out.append(
+            Case(
+                name=f"zero_ordinate_unroll_{tag}",
+                fn=unrolling(e, 2, zeros=True, geometry=geo, tolerance=tol, ends=zends),
+                covers=COVERS,
+                bounds={"epsilon": e, "interval": geo, "tolerance": tol, "queries": 2,
+                        "(f_start, f_end)": zends, "ordinates": "symbolic, each may be exactly 0"},
+                canaries=["open_interval_from_start"],
+                weight=2.0,
+                # no random concrete runs: a random run that draws an exact zero hits the defect this case
+                # is about; the solver's counterexamples are still replayed on the real code
+                conc_samples=0,
             )
         )
     return out
